@@ -1,6 +1,7 @@
 import NixModel.Step
 import NixModel.Observe
 import NixModel.Proofs.StoreBasics
+import NixModel.Proofs.SysHistory
 /-
   C02 — close and reopen preserves the complete entity tree.
 
@@ -70,6 +71,51 @@ theorem setAttr_rootOK (s : Store) (o : ObjId) (k v : String) (h : RootOK s) (ho
     simp only [hasGroup, child?, linksOf, hobj, hgrp] at this ⊢; exact this
   · have := h.created
     simp only [hasAttr, attr?, hobj] at this ⊢; exact this
+
+/-- the system invariant (Proofs/SysInv.lean) gives what the reopen theorems ask for -/
+theorem Sys.rootOK {s : Store} (h : Sys s) : RootOK s := by
+  obtain ⟨ob, h0, _, hl, hc⟩ := h.root
+  constructor
+  · simp [hasGroup, child?, linksOf, h0, hl, List.lookup, metadataGrp, h.g1]
+  · simp [hasGroup, child?, linksOf, h0, hl, List.lookup, metadataGrp, dataGrp, h.g2]
+  · simp [hasAttr, attr?, h0, hc]
+
+/-- C02 for the model, with no hypothesis on the state: after EVERY history of entry points on a new file (object arguments
+    being entity objects — everything the API hands out is one, see `Op.entityArgs`), closing and reopening in either mode changes
+    neither the store nor anything a getter can show -/
+theorem reopen_after_any_history (id created format version now : String) (ops : List Op) (ha : ∀ op ∈ ops, op.entityArgs) :
+    reopenRW (run (newFile id created format version) ops) now = run (newFile id created format version) ops ∧
+    observe (reopenRW (run (newFile id created format version) ops) now) = observe (run (newFile id created format version) ops) ∧
+    observe (reopenRO (run (newFile id created format version) ops)) = observe (run (newFile id created format version) ops) := by
+  have hs := (run_sys (newFile_sys id created format version) ops ha).rootOK
+  exact ⟨reopenRW_id _ now hs, (reopen_observe_eq _ now hs).1, (reopen_observe_eq _ now hs).2⟩
+
+theorem run_append (s : Store) (a b : List Op) : run s (a ++ b) = run (run s a) b := by simp [run, List.foldl_append]
+
+/-- … and a session that closes and reopens in the middle of a history ends in the store of the uninterrupted history -/
+theorem reopen_inside_any_history (id created format version now : String) (ops1 ops2 : List Op) (ha : ∀ op ∈ ops1, op.entityArgs) :
+    run (reopenRW (run (newFile id created format version) ops1) now) ops2 = run (newFile id created format version) (ops1 ++ ops2) := by
+  rw [(reopen_after_any_history id created format version now ops1 ha).1, run_append]
+
+/-- non-vacuity of `Op.entityArgs`: a history that creates a block, an array in it, a section and links the section, with the
+    handles the model itself hands out (3 = the block, 5 = the array, 6 = the section) -/
+example :
+    let ops := [Op.createBlock "b" "xt" "11111111-1111-1111-1111-111111111111" "1",
+                Op.createDataArray 3 "a" "xt" "22222222-2222-2222-2222-222222222222" "1" "Double" "[2]",
+                Op.createSection none "m" "xt" "33333333-3333-3333-3333-333333333333" "1",
+                Op.setSectionLink 5 "metadata" "33333333-3333-3333-3333-333333333333",
+                Op.deleteBlock "b"]
+    (∀ op ∈ ops, op.entityArgs) ∧
+    ((Op.createBlock "b" "xt" "11111111-1111-1111-1111-111111111111" "1").apply (newFile "f" "0" "xnix" "[1,2,0]")).2 = .ok () ∧
+    (run (newFile "f" "0" "xnix" "[1,2,0]") (ops.take 4)).child? 5 "metadata" = some 6 ∧
+    run (newFile "f" "0" "xnix" "[1,2,0]") ops ≠ newFile "f" "0" "xnix" "[1,2,0]" := by
+  refine ⟨?_, ?_, ?_, ?_⟩
+  · intro op hop
+    simp only [List.mem_cons, List.mem_nil_iff, or_false] at hop
+    rcases hop with rfl | rfl | rfl | rfl | rfl <;> simp [Op.entityArgs]
+  · decide +kernel
+  · decide +kernel
+  · decide +kernel
 
 /-- non-vacuity: a file with a block and a tagged array reopens to itself -/
 example :
